@@ -1220,6 +1220,54 @@ def unit_hist(ctx):
     ctx.note("certval_callbacks", _CV_STATE["calls"])
 
 
+def unit_short_m2(ctx):
+    """BSTS, party B against a peer that knows the session keys and sends a *short* M2 with a valid tag:
+    M2 = Va || Ya || Ta with |Ya| = k <= l/4 cannot hold s_a || cert_a; bakeBSTSStep4 must refuse it by its length
+    (bake.h: in_len > 3 l/4 + 8 ... ) without reading what is not there (M2 is an exact-size block under ASan).
+    The keys are derived as the library's own party A derives them: K = belt-hash(DH), K1 = belt-krp(K, FF^12, <1>)."""
+    env = Env(ctx.lib)
+    lib, rng = ctx.lib, ctx.rng
+    BAD_INPUT = errcode("ERR_BAD_INPUT")
+    for l in (128, 192, 256):
+        no = l // 4
+        for k in (0, 1, 5, no - 1, no, no + 1):
+            seed = rng.getrandbits(30)
+            if not ctx.case(["bsts-short-M2", l, k, seed], "short-M2:%s" % ("k<=l/4" if k <= no else "k=l/4+1")):
+                continue
+            cfg = base_cfg("BSTS", l, 1, 1, seed % 977, ks=seed)
+            P = build(env, cfg)
+            B = P["B"]
+            sb = lib.alloc(lib.bakeBSTS_keep(l))
+            if lib.bakeBSTSStart(sb, B.params, B.settings, B.privkey, B.cert) != 0:
+                raise Harness("bakeBSTSStart")
+            m1 = lib.alloc(2 * no)
+            if lib.bakeBSTSStep2(m1, sb) != 0:
+                raise Harness("bakeBSTSStep2")
+            # the peer: ephemeral key pair, shared keys
+            ua = random.Random(seed).randrange(1, env.curve(l)["q"]).to_bytes(no, "little")
+            Va, K, K1 = lib.alloc(2 * no), lib.alloc(no), lib.alloc(32)
+            if lib.bignPubkeyCalc(Va, B.params, lib.mk(ua)) != 0 or lib.bignDH(K, B.params, lib.mk(ua), m1, no) != 0:
+                raise Harness("peer key agreement")
+            Kh = lib.alloc(32)
+            lib.beltHash(Kh, K, no)
+            if lib.beltKRP(K1, 32, Kh, 32, lib.mk(b"\xff" * 12), lib.mk(b"\x01" + bytes(15))) != 0:
+                raise Harness("beltKRP")
+            Ya = bytes(rng.getrandbits(8) for _ in range(k))
+            ta = lib.alloc(8)
+            if lib.beltMAC(ta, lib.mk(Ya + bytes(16)), k + 16, K1, 32) != 0:
+                raise Harness("beltMAC")
+            M2 = lib.rd(Va, 2 * no) + Ya + lib.rd(ta, 8)
+            out = lib.alloc(no + B.cert_len + 8)
+            r = lib.bakeBSTSStep4(out, lib.mk(M2), len(M2), B.cv_peer, sb)
+            ctx.digest(r)
+            if k <= no and r != BAD_INPUT:
+                ctx.violation("bakeBSTSStep4:short-M2:not-refused-by-length", "M2 too short to hold s_a || cert_a is not refused with ERR_BAD_INPUT",
+                              {"l": l, "k": k, "ret": errname(r), "M2": M2})
+            if r == 0:
+                ctx.violation("bakeBSTSStep4:short-M2:accepted", "a short M2 was accepted", {"l": l, "k": k, "M2": M2})
+            finish_case(lib)
+
+
 def unit_one(ctx):
     """replay of one literal history"""
     env = Env(ctx.lib)
@@ -1254,6 +1302,7 @@ def jobs(tier, scale=1.0):
                 if scale != 1.0:
                     p["scale"] = scale
                 out.append({"unit": "c04:unit_hist", "params": p})
+    out.append({"unit": "c04:unit_short_m2", "params": {}, "always": True})
     return out
 
 
